@@ -451,7 +451,8 @@ class XBuffer(ABC):
     def free(self, offset, size):
         nch = Chunk(offset, offset + size)
         # insert sorted
-        if offset > self.chunks[-1].start:  # new chuck at the end
+        if len(self.chunks) == 0 or offset > self.chunks[-1].start:
+            # new chuck at the end
             self.chunks.append(nch)
         else:  # new chuck needs to be inserted
             for ic, ch in enumerate(self.chunks):
